@@ -74,6 +74,7 @@ def judge_c19(case, impl, model, spec):
         if v[3] != 0: return ("violation", f"{v[3]} handler requests during the steady state")
     if case.startswith("SECA"):
         if v[0] != 0: return ("violation", f"{v[0]} heap allocations while the section chain re-assembles repetitions of a stable section (its buffer is not re-used)")
+        if len(v) > 2 and v[2] != 0: return ("violation", f"{v[2]} sections that fit in one transport packet were delivered from a copy, not as a slice of the packet")
         return ("correspondence", "the number of sections delivered in the steady part differs from the number transmitted")
     if case.startswith("MEM") and v[0] != 1:
         return ("violation", "retained heap memory keeps growing with the length of a hostile stream (or exceeds the bound)")
